@@ -617,8 +617,19 @@ func init() {
 		},
 		"nondetInt": func(th *Thread, fr *frame, fn *ssa.Function, args []Value) Value {
 			p := th.p
-			v := p.newNondet(p.ndName(th, args[0]), 64)
 			lo, hi := args[1].(*Term), args[2].(*Term)
+			if lo.Op == OpConst && hi.Op == OpConst && lo.SInt() >= 0 && hi.SInt() < 1<<15 && lo.SInt() <= hi.SInt() {
+				// small non-negative range: a narrow variable, zero-extended
+				w := uint8(16)
+				if hi.SInt() < 1<<7 {
+					w = 8
+				}
+				nv := p.newNondet(p.ndName(th, args[0]), w)
+				p.assume(Cmp(OpUle, BV(w, lo.Val), nv))
+				p.assume(Cmp(OpUle, nv, BV(w, hi.Val)))
+				return Resize(nv, 64, false)
+			}
+			v := p.newNondet(p.ndName(th, args[0]), 64)
 			p.assume(Cmp(OpSle, lo, v))
 			p.assume(Cmp(OpSle, v, hi))
 			if lo.Op == OpConst && hi.Op == OpConst && lo.SInt() > hi.SInt() {
